@@ -27,6 +27,14 @@ pub enum Mal {
     FormField { field: u8, bad: u16, garbage: Option<String> },
     FormMissing { field: u8 },
     FormDup { field: u8 },
+    /// one undecodable component among the components of a typed wildcard remainder
+    WildElem { uuid: bool, good: Vec<u16>, at: u16, bad: u16, garbage: Option<String> },
+    /// an ill-typed first-page (scan) parameter of a paginated endpoint
+    PageVal { field: u8, bad: u16, garbage: Option<String> },
+    /// a required first-page parameter missing
+    PageMissing { field: u8 },
+    /// a first-page parameter given twice
+    PageDup { field: u8 },
 }
 
 #[derive(Clone, Debug, Serialize, Deserialize)]
@@ -176,6 +184,10 @@ fn mal_strategy() -> impl Strategy<Value = Mal> {
         2 => (0u8..4, any::<u16>(), garbage()).prop_map(|(field, bad, garbage)| Mal::FormField { field, bad, garbage }),
         1 => (0u8..5).prop_map(|field| Mal::FormMissing { field }),
         1 => (0u8..6).prop_map(|field| Mal::FormDup { field }),
+        2 => (any::<bool>(), proptest::collection::vec(any::<u16>(), 0..4), any::<u16>(), any::<u16>(), garbage()).prop_map(|(uuid, good, at, bad, garbage)| Mal::WildElem { uuid, good, at, bad, garbage }),
+        2 => (0u8..10, any::<u16>(), garbage()).prop_map(|(field, bad, garbage)| Mal::PageVal { field, bad, garbage }),
+        1 => (0u8..9).prop_map(|field| Mal::PageMissing { field }),
+        1 => (0u8..13).prop_map(|field| Mal::PageDup { field }),
     ]
 }
 
@@ -240,6 +252,7 @@ pub fn render_bad(c: &BadCase) -> Option<BadWire> {
     let mut qpairs = query_pairs_pub(tag, &c.query, &mut Style(3));
     let mut jfields = json_fields(&c.body);
     let mut body_override: Option<Vec<u8>> = None;
+    let mut wild_path: Option<String> = None;
     let mut ct: Option<Vec<u8>> = Some(b"application/json".to_vec());
     let (op, class, desc): (&'static str, String, String);
     let use_all = |all: bool, single: &'static str| if all { "ve_all" } else { single };
@@ -405,6 +418,58 @@ pub fn render_bad(c: &BadCase) -> Option<BadWire> {
             class = format!("content-type:{}", kind % 9);
             desc = format!("content-type {:?} on a {} endpoint", String::from_utf8_lossy(&v), base);
         }
+        Mal::WildElem { uuid, good, at, bad, garbage } => {
+            let mut comps: Vec<String> = good
+                .iter()
+                .map(|g| if *uuid { uuid_canonical_pub(&wild_uuid(*g)) } else { COLORS[*g as usize % 3].1.to_string() })
+                .collect();
+            let spoiled = garbage.as_ref().map(|g| spoil(if *uuid { "uuid" } else { "enum" }, g));
+            let b: String = match &spoiled {
+                Some(g) => g.clone(),
+                None => pick(*bad, PATH_BAD[if *uuid { 1 } else { 2 }]).to_string(),
+            };
+            let pos = pick_idx(*at, comps.len() + 1);
+            comps.insert(pos, b.clone());
+            wild_path = Some(comps.iter().map(|c| enc_path_segment(c, &mut st)).collect::<Vec<_>>().join("/"));
+            op = if *uuid { "ve_uwild" } else { "ve_cwild" };
+            class = format!("wildcard-element:{}", if *uuid { "uuid" } else { "enum" });
+            desc = format!("component {} of {} in a wildcard remainder of {} = {:?}", pos + 1, comps.len(), if *uuid { "UUIDs" } else { "enum values" }, b);
+        }
+        Mal::PageVal { field, bad, garbage } => {
+            let f = QUERY_BADDABLE[(*field as usize) % QUERY_BADDABLE.len()];
+            let kind = match f {
+                "b" => "bool",
+                "ch" => "char",
+                "color" => "enum",
+                "f" => "",
+                _ => "int",
+            };
+            let spoiled = if kind.is_empty() { None } else { garbage.as_ref().map(|g| spoil(kind, g)) };
+            let b: &str = match &spoiled {
+                Some(g) => g.as_str(),
+                None => *pick(*bad, query_bad(f)),
+            };
+            qpairs.retain(|(k, _)| k != f);
+            qpairs.push((f.to_string(), b.to_string()));
+            op = "ve_page";
+            class = format!("page-value:{}", f);
+            desc = format!("first-page parameter {} = {:?}", f, b);
+        }
+        Mal::PageMissing { field } => {
+            let f = QUERY_FIELDS[(*field as usize) % QUERY_REQUIRED];
+            qpairs.retain(|(k, _)| k != f);
+            op = "ve_page";
+            class = "page-missing".into();
+            desc = format!("required first-page parameter {} missing", f);
+        }
+        Mal::PageDup { field } => {
+            let f = QUERY_FIELDS[(*field as usize) % QUERY_FIELDS.len()];
+            let existing = qpairs.iter().find(|(k, _)| k == f).cloned()?;
+            qpairs.push(existing);
+            op = "ve_page";
+            class = "page-duplicate".into();
+            desc = format!("first-page parameter {} given twice", f);
+        }
         Mal::FormField { .. } | Mal::FormMissing { .. } | Mal::FormDup { .. } => {
             let fs = &c.form;
             let mut pairs = vec![
@@ -459,6 +524,9 @@ pub fn render_bad(c: &BadCase) -> Option<BadWire> {
     let (method, target, body): (&str, String, Option<Vec<u8>>) = match op {
         "ve_path" => ("GET", format!("/e/path/{}?tag={}", path_segs.join("/"), tag), None),
         "ve_query" => ("GET", format!("/e/query?{}", simple_pairs(&qpairs)), None),
+        "ve_page" => ("GET", format!("/e/page?{}", simple_pairs(&qpairs)), None),
+        "ve_cwild" => ("GET", format!("/e/cwild/{}?tag={}", wild_path.clone().unwrap_or_default(), tag), None),
+        "ve_uwild" => ("GET", format!("/e/uwild/{}?tag={}", wild_path.clone().unwrap_or_default(), tag), None),
         "ve_json" => ("POST", format!("/e/json?tag={}", tag), Some(body_override.unwrap_or_else(|| join_json(&jfields).into_bytes()))),
         "ve_all" => (
             "PUT",
@@ -507,11 +575,26 @@ pub fn render_bad(c: &BadCase) -> Option<BadWire> {
 }
 
 /// the unmodified request for the same operation (must be accepted)
+fn wild_uuid(g: u16) -> [u8; 16] {
+    let a = splitmix64(g as u64).to_le_bytes();
+    let b = splitmix64(g as u64 ^ 0x55).to_le_bytes();
+    let mut id = [0u8; 16];
+    id[..8].copy_from_slice(&a);
+    id[8..].copy_from_slice(&b);
+    id
+}
+
 fn render_good(c: &BadCase, op: &str) -> Wire {
     let fr = Framing { chunked: c.chunked, chunk_sizes: vec![7, 300], ext: false, trailer: false, cuts: vec![], ct_variant: 0 };
     let req = match op {
         "ve_path" => EchoReq::Path(c.path.clone()),
         "ve_query" => EchoReq::Query(c.query.clone()),
+        "ve_page" => EchoReq::Page(c.query.clone(), None),
+        "ve_cwild" | "ve_uwild" => match &c.mal {
+            Mal::WildElem { uuid: true, good, .. } => EchoReq::UuidWild(good.iter().map(|g| wild_uuid(*g)).collect()),
+            Mal::WildElem { good, .. } => EchoReq::ColorWild(good.iter().map(|g| (*g % 3) as u8).collect()),
+            _ => unreachable!(),
+        },
         "ve_json" => EchoReq::Json(c.body.clone(), fr),
         "ve_all" => EchoReq::All(c.path.clone(), c.query.clone(), c.body.clone(), fr),
         _ => EchoReq::Form(c.form.clone(), fr),
@@ -594,7 +677,7 @@ fn check_bad(live: &LiveEcho, rt: &tokio::runtime::Runtime, c: &BadCase, st: &mu
 }
 
 pub fn run(ctx: &mut Ctx) {
-    ctx.rule = "a valid request from C09's generator (confirmed accepted first) with exactly one constructed malformation: ill-typed/out-of-range/unknown-variant token in each path, query, JSON and form position; missing required field; duplicated field; 17 kinds of malformed JSON incl. truncation at every offset, trailing data and concatenated values; wrong or undecodable content type. Oracle: a response arrives, 4xx, framework error body with matching request id, per-operation handler-entry counter unchanged, follow-up requests succeed. non-trivial = every executed case (all are invalid by construction); distinct by (operation, class, request bytes)".into();
+    ctx.rule = "a valid request from C09's generator (confirmed accepted first) with exactly one constructed malformation: ill-typed/out-of-range/unknown-variant token in each path, query, first-page (pagination scan) parameter, JSON and form position, or as one component (any position) of a wildcard remainder typed as enum values or UUIDs; missing required field; duplicated field; 17 kinds of malformed JSON incl. truncation at every offset, trailing data and concatenated values; wrong or undecodable content type. Oracle: a response arrives, 4xx, framework error body with matching request id, per-operation handler-entry counter unchanged, follow-up requests succeed. non-trivial = every executed case (all are invalid by construction); distinct by (operation, class, request bytes)".into();
     ctx.assume("float overflow (1e400) is not generated; content types with parameters are valid and belong to C09; a leading '+' on integers and other spellings the Rust parsers accept are not in the malformation table");
     ctx.max_shrink_iters = 600;
     let srt = tokio::runtime::Builder::new_multi_thread().worker_threads(2).enable_all().build().unwrap();
@@ -602,7 +685,7 @@ pub fn run(ctx: &mut Ctx) {
     let live = start_echo(&srt, 1 << 20, dropshot::HandlerTaskMode::Detached);
     let n = ctx.tier.pick(9000, 250000);
     ctx.phase("malformations", n, bad_case_strategy(), |c, st| check_bad(&live, &rt, c, st));
-    for k in ["path", "query-value", "query-missing", "query-duplicate", "json-value", "json-missing", "json-duplicate", "json-syntax", "content-type", "form-value", "form-missing", "form-duplicate"] {
+    for k in ["path", "query-value", "query-missing", "query-duplicate", "json-value", "json-missing", "json-duplicate", "json-syntax", "content-type", "form-value", "form-missing", "form-duplicate", "wildcard-element", "page-value", "page-missing", "page-duplicate"] {
         ctx.require_frac("malformations", &format!("class:{}", k), "class:path", 0.05);
     }
     let _ = srt.block_on(live.server.close());
